@@ -351,11 +351,21 @@ func (r *MRepo) isChildOfPresent(d string) bool {
 // ---------------------------------------------------------------------------------------------
 // garbage collection: must-keep closure (C05) and must-remove set (C06)
 
-// mustKeep computes the set of digests that no collection may remove, as the property words it.
-// "young" uses born (the earliest possible write time) plus a tolerance, so the model can only
-// err towards demanding less.
-func (m *Model) mustKeep(r *MRepo, now time.Time) map[string]bool {
-	keep := map[string]bool{}
+// Roles in the must-keep closure.
+const (
+	keepBlob = 1 // the bytes must stay retrievable as a blob
+	keepMan  = 2 // retained as a manifest: it must stay served as one, and what it names is retained too
+)
+
+// mustKeep computes what no collection may remove, as the property words it: tagged manifests; every manifest
+// while untagged collection is off; everything younger than the grace period; what a retained manifest names
+// (children of an index in the manifest role, config and layers as blobs); referrers of retained manifests.
+// A digest that is retained only as config/layer of an image is an opaque blob: it is not expanded even if the
+// same bytes were also pushed as a manifest (that reading would demand more than a registry can be held to).
+// "young" uses born (the earliest possible write time) plus a tolerance, so the model can only err towards
+// demanding less.
+func (m *Model) mustKeep(r *MRepo, now time.Time) map[string]int {
+	keep := map[string]int{}
 	grace := m.k.grace()
 	young := func(born time.Time) bool {
 		if grace < 0 {
@@ -364,42 +374,52 @@ func (m *Model) mustKeep(r *MRepo, now time.Time) map[string]bool {
 		return now.Sub(born) < grace-gcTolerance(m.k)
 	}
 	var work []string
-	add := func(d string) {
-		if !keep[d] {
-			keep[d] = true
+	addM := func(d string) {
+		if _, ok := r.mans[d]; !ok {
+			if keep[d] < keepBlob {
+				keep[d] = keepBlob
+			}
+			return
+		}
+		if keep[d] < keepMan {
+			keep[d] = keepMan
 			work = append(work, d)
 		}
 	}
+	addB := func(d string) {
+		if keep[d] < keepBlob {
+			keep[d] = keepBlob
+		}
+	}
 	for _, d := range r.tags {
-		add(d)
+		addM(d)
 	}
 	for d, x := range r.mans {
-		if !m.k.untagged() {
-			add(d)
-		}
-		if young(x.born) {
-			add(d)
+		if !m.k.untagged() || young(x.born) {
+			addM(d)
 		}
 	}
 	for d, b := range r.blobs {
 		if young(b.born) {
-			add(d)
+			addB(d)
 		}
 	}
 	for len(work) > 0 {
 		d := work[len(work)-1]
 		work = work[:len(work)-1]
-		x, ok := r.mans[d]
-		if !ok {
-			continue
+		x := r.mans[d]
+		if isIndexMT(x.mt) {
+			for _, c := range x.view.refs {
+				addM(c)
+			}
+		} else {
+			for _, c := range x.view.refs {
+				addB(c)
+			}
 		}
-		for _, c := range x.view.refs {
-			add(c)
-		}
-		// referrers of a kept manifest
 		for ad, a := range r.mans {
 			if a.view.subject == d {
-				add(ad)
+				addM(ad)
 			}
 		}
 	}
@@ -423,12 +443,12 @@ func (m *Model) collectionOpportunity(now time.Time) {
 	for _, r := range m.repos {
 		keep := m.mustKeep(r, now)
 		for d, b := range r.blobs {
-			if !keep[d] {
+			if keep[d] == 0 {
 				b.maybeGone = true
 			}
 		}
 		for d, x := range r.mans {
-			if !keep[d] {
+			if keep[d] < keepMan {
 				x.maybeGone = true
 			}
 		}
